@@ -49,17 +49,18 @@ var (
 	limitOnce  sync.Once
 )
 
-// limitMemory caps the address space of a worker: a generated program that allocates without end
-// (a corrupted container that keeps appending) must end as a crashed worker, not as an exhausted
-// machine.
+// limitMemory caps the private writable memory of a worker (RLIMIT_DATA counts heap and anonymous
+// mappings that are actually writable, not address-space reservations): a generated program that
+// allocates without end (a corrupted container that keeps appending) must end as a crashed
+// worker, not as an exhausted machine.
 func limitMemory() {
-	lim := uint64(12) << 30
-	if s := os.Getenv("HRUN_AS_LIMIT_GB"); s != "" {
+	lim := uint64(10) << 30
+	if s := os.Getenv("HRUN_DATA_LIMIT_GB"); s != "" {
 		if v, err := strconv.Atoi(s); err == nil && v > 0 {
 			lim = uint64(v) << 30
 		}
 	}
-	_ = syscall.Setrlimit(syscall.RLIMIT_AS, &syscall.Rlimit{Cur: lim, Max: lim})
+	_ = syscall.Setrlimit(syscall.RLIMIT_DATA, &syscall.Rlimit{Cur: lim, Max: lim})
 }
 
 // HandleJob is the worker entry point (mc.WorkerMain(hrun.HandleJob)).
